@@ -37,7 +37,7 @@ func VerifH_C14_zero() {
 	upkg, all := verifUniverse("")
 	conf := &Config{Types: upkg, Importer: verifImporter{}, HandleErr: func(err error) { panic(err) }}
 	pkg := NewPackage("", "u", conf)
-	T := verifPickType("T", all)
+	T := verifPickAnyType("T", all)
 	var e *Element
 	how := vp.Choose("how", 2)
 	class := vp.Try(func() {
